@@ -234,6 +234,7 @@ package nexus
 //@     decreases pm(p) + (stopseq ? 0 : 1)
 
 //@ func (*io/nexus.Parser).parseTaxa
+//@   call fmt.Errorf [a_taxon_label_is_refused_only_when_it_is_neither_a_name_nor_a_number] a0 == "Unknown token %q in taxlabel list" ==> tok2 != IDENT && tok2 != NUMERIC && tok2 != ENDOFLINE && tok2 != ENDOFCOMMAND
 //@   flag noframe
 //@   requires pw(p)
 //@   ensures [well_formed] pw(p)
